@@ -372,7 +372,7 @@ variable {K : Type} [Field K] [LinearOrder K] [IsStrictOrderedRing K]
           let v1 := ((3 : K) * p1y)
           let v2 := ((((-p0y) + v1) - v0) + p3y)
           let v3 := (((((3 : K) * p0y) - ((6 : K) * p1y)) + v0) / v2)
-          let v4 := (-(rpow ((((((((2 : K) * v3) * v3) * v3) - (((9 : K) * v3) * ((((-3 : K) * p0y) + v1) / v2))) + ((27 : K) * (p0y / v2))) / (27 : K)) / (2 : K)) ((1 : K) / 3)))
+          let v4 := (rpow ((((((((2 : K) * v3) * v3) * v3) - (((9 : K) * v3) * ((((-3 : K) * p0y) + v1) / v2))) + ((27 : K) * (p0y / v2))) / (27 : K)) / (2 : K)) ((1 : K) / 3))
           let v5 := (v3 / (3 : K))
           [(((2 : K) * v4) - v5), ((-v4) - v5)]
       else
